@@ -207,6 +207,9 @@ def shard(task):
             r = run_case(case, wd)
             sh.case(case, nontrivial=True, sample=case if len(sh.samples) < 1 else None)
             sh.note("chains", case["chain"])
+            if r and c01._library_defect(case):
+                sh.count("codec_library_defect_not_judged")
+                continue
             for sym, msg in r:
                 sh.violation(sig_case(case, sym, msg), msg, {"kind": "case", "case": case})
     elif kind == "P3":
